@@ -666,4 +666,53 @@ theorem redacted_outer_ok (E : Ext) (env : Env) (perms : List String) (norm : Bo
 example : stringKeyed (.dict [(.str "k", .int 1)]) = true ∧ stringKeyed (.dict [(.int 1, .int 1)]) = false ∧
     stringKeyed (.list [.dict [(.int 1, .int 1)]]) = true := by decide
 
+/-! ### 8. Redactors given through an alias reach the validator the encoder consults
+
+`validatorOf` models `generate_validator_constructor`: the validator object built for a declared type.
+An alias annotated with a redactor puts it on the outermost object of the alias's validator, so the
+theorems of section 6 apply to every position whose declared type is (a list of / a map to / a
+Nullable of) such an alias. -/
+
+/-- a value whose declared type is an alias with a redactor is replaced by its redaction -/
+theorem alias_redacted (E : Ext) (env : Env) (perms : List String) (norm : Bool) (n : String) (r : Redactor)
+    (t : IrTy) (T : PTy) (v : PyVal) (h : validatorOf (.alias n (some r) t) = some T) :
+    encode E env perms true norm T v = redactValue E r v :=
+  encode_redact_outer E env perms norm T v r (validatorOf_alias_outer n r t T h)
+
+/-- an alias of an alias adds nothing: the inner alias's redactor stays -/
+theorem alias_of_alias (n : String) (t : IrTy) : validatorOf (.alias n none t) = validatorOf t := by
+  simp only [validatorOf]
+  cases validatorOf t <;> rfl
+
+/-- `Nullable(alias)`: the redactor sits on the wrapped object, nothing on the wrapper, and
+`redacted_inner` / `redacted_never_clear` apply -/
+theorem nullable_alias_redacted (n : String) (r : Redactor) (t : IrTy) (T : PTy)
+    (h : validatorOf (.nullable (.alias n (some r) t)) = some T) :
+    T.flags.nullable = true ∧ T.flags.redactOuter = none ∧ T.flags.redactInner = some r ∧
+      T.topRedactor = some r :=
+  validatorOf_nullable_alias_top n r t T h
+
+/-- `List(alias)`: every item is replaced by its redaction -/
+theorem list_of_alias_redacted (E : Ext) (env : Env) (perms : List String) (n : String) (r : Redactor)
+    (t : IrTy) (a b : Option Nat) (T : PTy) (h : validatorOf (.list (.alias n (some r) t) a b) = some T) :
+    ∃ item, T = .list {} item a b ∧
+      ∀ xs, encodeList E env perms true item xs = xs.mapM (redactValue E r) := by
+  obtain ⟨item, hT, hr⟩ := validatorOf_list_alias n r t a b T h
+  exact ⟨item, hT, encodeList_redacted E env perms item r hr⟩
+
+/-- `Map(k, alias)`: every value is replaced by its redaction -/
+theorem map_of_alias_redacted (E : Ext) (env : Env) (perms : List String) (n : String) (r : Redactor)
+    (k t : IrTy) (T : PTy) (h : validatorOf (.map k (.alias n (some r) t)) = some T) :
+    ∃ kt vt, T = .map {} kt vt ∧ ∀ kvs out, encodeDict E env perms true kt vt kvs = .ok out →
+      out.length = kvs.length ∧ ∀ kj ∈ out, ∃ kx ∈ kvs, redactValue E r kx.2 = .ok kj.2 := by
+  obtain ⟨kt, vt, hT, hr⟩ := validatorOf_map_alias n r k t T h
+  exact ⟨kt, vt, hT, fun kvs out => encodeDict_values_redacted E env perms kt vt r hr kvs out⟩
+
+example : (validatorOf (.alias "Secret" (some (.blot none)) (.str none none none))).map (·.outerRedactor)
+      = some (some (.blot none)) ∧
+    (validatorOf (.nullable (.alias "Secret" (some (.blot none)) (.str none none none)))).map (·.topRedactor)
+      = some (some (.blot none)) ∧
+    (validatorOf (.list (.alias "Outer" none (.alias "Secret" (some (.hash none)) (.str none none none))) none none)).isSome
+      = true := by decide
+
 end StoneVerif.C13
